@@ -11,8 +11,11 @@ cd /repo || exit 2
 if [ -n "$(git status --porcelain --untracked-files=no)" ]; then echo "/repo has uncommitted changes; refusing"; exit 2; fi
 git apply "$D/patch.diff" || { echo "patch does not apply"; exit 2; }
 cd /verif
+cp "evidence/$P.json" "/verif/target/evidence-$P.keep" 2>/dev/null
 ./check "$P" "$@" > "/verif/target/seeded-$N.log" 2>&1
 rc=$?
+# the evidence of a run against a seeded change is not evidence about /repo: put the old file back
+[ -f "/verif/target/evidence-$P.keep" ] && mv "/verif/target/evidence-$P.keep" "evidence/$P.json"
 grep -E "^(VIOLATION|SUMMARY|BUILD-FAILED)" "/verif/target/seeded-$N.log" | cut -c1-300
 # remove replay files written by this mutant run
 for f in $(grep -E "^VIOLATION" "/verif/target/seeded-$N.log" | sed 's/.*replay=//'); do case "$f" in */fail-*) rm -f "$f";; esac; done
